@@ -31,6 +31,10 @@ func init() {
 			}
 			return seeded("C20", seed, n, func(i int, sd uint64) *k.Spec {
 				s := &k.Spec{Params: cp(c03Confs[i%3], "race", "1", "killrace", []string{"0", "1"}[k.H(sd, "kr", 0)%2])}
+				if i%5 == 4 {
+					// a plugin whose start fails: the goroutines use the client-level operations only
+					s.Params["failing"] = c20Failing[int(k.H(sd, "failing", 0)%uint64(len(c20Failing)))]
+				}
 				swarm(s, "")
 				if s.HotPermille == 0 {
 					s.HotPermille = 50
@@ -49,7 +53,82 @@ func init() {
 	})
 }
 
+var c20Failing = []string{"exits-early", "exits-early-stderr", "closes-stderr", "bad-handshake", "bad-handshake-more", "silent"}
+
+// runC20Failing: goroutines use one client whose plugin fails to start.
+func runC20Failing(r *h.Run, kind string) {
+	w := r.W
+	c := r.ConfFromParams()
+	c.Timeout = 3 * time.Second
+	c.Path = "/bin/" + kind
+	if w.Range("launch", 2) == 1 {
+		c.Launch = "runner"
+	}
+	ctx := fmt.Sprintf("conf=%s plugin=%s", c.String(), kind)
+	sc := &h.Script{}
+	switch kind {
+	case "exits-early":
+		sc.End = "exit:3"
+	case "exits-early-stderr":
+		sc.Steps, sc.End = []h.ScriptStep{h.Err("fatal: cannot start\n")}, "exit:3"
+	case "closes-stderr":
+		sc.End = "closeerr"
+	case "bad-handshake":
+		sc.Steps = []h.ScriptStep{h.Out("this is not a handshake\n")}
+	case "bad-handshake-more":
+		sc.Steps = []h.ScriptStep{h.Out("usage: tool\n  -h help\n"), h.Err("tool: unknown invocation\n"), h.Out("more\n").After(time.Millisecond)}
+	}
+	r.InstallScript(c.Path, sc)
+	cl := r.NewClient(c)
+	ng := 2 + w.Range("g/n", 4)
+	nops := 2 + w.Range("g/ops", 4)
+	ops := []string{"Start", "Start", "Client", "Protocol", "ID", "Exited", "ReattachConfig", "Kill"}
+	var wg sync.WaitGroup
+	for g := 0; g < ng; g++ {
+		g := g
+		wg.Add(1)
+		go k.Trap(func() {
+			defer wg.Done()
+			for i := 0; i < nops; i++ {
+				op := ops[w.Range(fmt.Sprintf("op/g%d", g), len(ops))]
+				o := r.Do(fmt.Sprintf("g%d.%s", g, op), 120*time.Second, func() (any, error) {
+					switch op {
+					case "Start":
+						return cl.Start()
+					case "Client":
+						return cl.Client()
+					case "Protocol":
+						return cl.Protocol(), nil
+					case "ID":
+						return cl.ID(), nil
+					case "Exited":
+						return cl.Exited(), nil
+					case "ReattachConfig":
+						return cl.ReattachConfig(), nil
+					case "Kill":
+						cl.Kill()
+					}
+					return nil, nil
+				})
+				if o.Hung {
+					r.Violate("hang", fmt.Sprintf("op=%s %s", op, ctx), r.HostStacks("goplugin"))
+					return
+				}
+			}
+		})
+	}
+	wg.Wait()
+	if o := r.Do("Kill(final)", 150*time.Second, func() (any, error) { cl.Kill(); return nil, nil }); o.Hung {
+		r.Violate("hang", "op=Kill "+ctx, r.HostStacks("goplugin"))
+	}
+	time.Sleep(5 * time.Second)
+}
+
 func runC20(r *h.Run) {
+	if f := r.Spec.P("failing", ""); f != "" {
+		runC20Failing(r, f)
+		return
+	}
 	w := r.W
 	c := r.ConfFromParams()
 	ctx := "conf=" + c.String()
